@@ -35,6 +35,31 @@ def _getattr_name(t):
     return None
 
 
+def _module_entries(t):
+    """For getattr(sys.modules[M], X, ...): the description entries E whose 'module' key M is read from."""
+    if not (isinstance(t, App) and t.fn == 'getattr' and t.args):
+        return None
+    m = t.args[0]
+    out = set()
+    stack = [m]
+    from sa.terms import IfT, Formula
+    while stack:
+        u = stack.pop()
+        if isinstance(u, Sub):
+            if u.index == Const('module'):
+                out.add(strip_versions(u.base))
+            stack += [u.base, u.index]
+        elif isinstance(u, App):
+            if u.fn == '.get' and len(u.args) >= 2 and u.args[1] == Const('module'):
+                out.add(strip_versions(u.args[0]))
+            stack += list(u.args)
+        elif isinstance(u, IfT):
+            stack += [u.a, u.b]
+        elif isinstance(u, Attr):
+            stack.append(u.base)
+    return out
+
+
 def run(cx: Cx):
     fn = cx.fn(DEC + 'Decoder.decode')
     paths = [p for p in cx.walker.paths(fn, WalkOptions(unroll=1, callee_raises=False, max_paths=60000)) if p.end == 'return']
@@ -84,6 +109,11 @@ def run(cx: Cx):
                     if K in HOOKS:
                         if R != roots.get(HOOKS[K]):
                             viol('R-ORDER', f"hook-{K}-read-from-its-own-entry", f"the {K} hook is looked up in {R!r}", e.line)
+                        me = _module_entries(d['func_term'])
+                        if me and me != {Sub(R, Const(K))}:
+                            viol('R-ORDER', f"hook-{K}-resolved-in-its-own-module", f"the {K} hook function is looked up in the module named by "
+                                 f"{sorted(repr(x) for x in me)}, not by the hook's own entry {Sub(R, Const(K))!r}: with the hook in another "
+                                 f"module than its system/agent class the wrong function (or None) is called", e.line)
                         if arg != Sub(Sub(R, Const(K)), Const('params')):
                             viol('R-FWD', f"hook-{K}-receives-its-own-params", f"the {K} hook is called with {arg!r}, not its own 'params'", e.line)
                         seq.append(('hook:' + K, i, e))
@@ -96,6 +126,10 @@ def run(cx: Cx):
                     kind = 'model' if R == Sub(D, Const('model')) else ('system' if R == roots.get('system') else ('agent' if R == roots.get('agent') else None))
                     if kind is None:
                         continue
+                    me = _module_entries(d.get('recv'))
+                    if me and me != {R}:
+                        viol('R-ORDER', f"class-of-{kind}-resolved-in-its-own-module", f"the {kind} class is looked up in the module named by "
+                             f"{sorted(repr(x) for x in me)}, not by its own entry {R!r}", e.line)
                     if arg != Sub(R, Const('params')):
                         viol('R-FWD', f"create-{kind}-from-its-own-params", f"the {kind} is decoded from {arg!r}, not its own 'params'", e.line)
                     seq.append(('create:' + kind, i, e))
@@ -238,6 +272,9 @@ def run(cx: Cx):
         cx.ok('R-ORDER', 'decode(): documented lifecycle order on every CFG path, hooks guarded by their own keys, model injected into the '
               'six system/agent-level roles, agent_index = 0..n-1', where=cx.where(fn), function=fn.qualname, paths=len(paths),
               roles=sorted(roles_seen), injections=sorted(inj_seen))
+    from .common import include_premises
+    include_premises(cx, ['C01'], 'listed systems are registered with their declared scheduling by add_system')
+    include_premises(cx, ['C04'], 'listed agents are added by Environment.add_agent', only=lambda o: o.function.endswith('Environment.add_agent'))
 
 
 def _receiver_read_at(evs, i, e):
